@@ -14,7 +14,7 @@ plus a closed obligation over edit / run / clear histories of generated module g
 import fnmatch
 import io
 
-from vlib.prelude import CASE, cover, decode, known_classes, ok
+from vlib.prelude import CASE, cover, decode, known_classes, natively, ok
 
 from rogw.tranp.cache import cache as cache_module
 from rogw.tranp.cache.cache import CacheProvider, CacheSetting
@@ -332,7 +332,8 @@ def symbols_key_law(e01: bool, e02: bool, e03: bool, e12: bool, e13: bool, e23: 
 	post: _
 	"""
 	x = decode(x, N)
-	_, bad = _symbols_key([e01, e02, e03, e12, e13, e23], x, bool(CASE.get('far')))
+	bits = [True if e else False for e in (e01, e02, e03, e12, e13, e23)]
+	_, bad = natively(_symbols_key, bits, x, bool(CASE.get('far')))
 	return ok(not bad)
 
 
